@@ -2,7 +2,7 @@
    layout of the function definitions, the generalised frame relation (junk lines given by a
    predicate), meta-info lemmas for the C05 syntax, dispatch lemmas. *)
 Require Import DS.Base DS.FlowTables DS.FlowTablesWf DS.FlowScan DS.Flow DS.FlowTree DS.FlowScanProof
-  DS.FlowLemmas DS.FlowFrame DS.FlowFn DS.FlowFnTree DS.FlowFnScan.
+  DS.FlowLemmas DS.FlowFrame DS.FlowFn DS.FlowFnTree DS.FlowFnDom DS.FlowFnScan.
 Require Import DSG.GenFlowNames DSG.GenFnNames.
 Open Scope nat_scope.
 
